@@ -164,6 +164,9 @@ def run_kernel(k, fns, wrapping, fields, budget):
                       (r"TooDee::<T>::data(_mut)?$|TooDeeViewCommon<T>>::data$|::data(_mut)?$", data_model)] + mirsmt.STD_MODELS
             ex = ExecB(fns, wrapping, models)
             st = mirsmt.State(sym, wrapping)
+            if getattr(k, "needs_state", False):
+                kernels.tup_order[0] = fields
+                st.roots = {"self": args[0]}
             outcomes = ex.run(name, st, args)
         except Unsupported as e:
             out["inconclusive"].append(f"{name}: outside the MIR subset: {e}")
@@ -183,26 +186,37 @@ def run_kernel(k, fns, wrapping, fields, budget):
             out["validated_vectors"] = n_ok
             if bad:
                 out["inconclusive"].append(f"{name}: translation validation mismatch on concrete inputs: {bad[:2]}")
+        jobs = []
         for o in outcomes:
             out["paths"] += 1
-            post = k.post(o.kind, o.state.events, o.value, d)
+            if getattr(k, "needs_state", False):
+                post = k.post(o.kind, o.state.events, o.value, d, state=o.state)
+            else:
+                post = k.post(o.kind, o.state.events, o.value, d)
             if post == "true":
                 continue
             base = ctx.assume + o.state.pc + [f"(not {post})"]
             names_in = list(ctx.inputs.values())
-            script = mirsmt.smt_script(sym, base)
-            script_m = mirsmt.smt_script(sym, base, get_model=names_in)
-            verdict, verdicts, dt, model = mirsmt.decide(script, script_m)
+            jobs.append((o, base, names_in))
+
+        def work(job):
+            o, base, names_in = job
+            return job, mirsmt.decide(mirsmt.smt_script(sym, base), mirsmt.smt_script(sym, base, get_model=names_in))
+
+        from concurrent.futures import ThreadPoolExecutor
+        with ThreadPoolExecutor(max_workers=6) as pool:
+            done = list(pool.map(work, jobs))
+        for (o, base, names_in), (verdict, verdicts, dt, model) in done:
             out["queries"] += 1
             out["solver_s"] += dt
             if verdict in ("unsat", "unsat1"):
                 out["unsat"] += 1
                 if verdict == "unsat1":
-                    out.setdefault("notes", []).append(f"one solver only: {verdicts}")
+                    out["one_solver"] = out.get("one_solver", 0) + 1
                 continue
             if verdict == "sat":
                 # small witness for replay
-                small = [f"(<= {t} 64)" for n, t in ctx.inputs.items() if n in ("cols", "rows", "stride", "len", "skip", "items")]
+                small = [f"(<= {t} 64)" for n, t in ctx.inputs.items() if n in ("cols", "rows", "stride", "len", "skip", "items", "off")]
                 sm = mirsmt.smt_script(sym, base + small, get_model=names_in)
                 rs, outm = mirsmt.solve(sm, "z3")
                 if rs != "sat":
@@ -332,12 +346,16 @@ def run_property(prop, tier="quick"):
         return results, {"kernels": 0}
     mir = {True: dump_mir(False), False: dump_mir(True)}  # key: wrapping?
     fns = {w: mirsmt.parse_mir(t) for w, t in mir.items()}
-    for k in ks:
-        for wrapping in (False, True):
-            r = run_kernel(k, fns[wrapping], wrapping, fields, None)
-            for s_ in r["sat"]:
-                s_["replay"] = witness_to_replay(k, s_["witness"])
-            results.append(r)
+    def one(job):
+        k, wrapping = job
+        r = run_kernel(k, fns[wrapping], wrapping, fields, None)
+        for s_ in r["sat"]:
+            s_["replay"] = witness_to_replay(k, s_["witness"])
+        return r
+
+    from concurrent.futures import ThreadPoolExecutor
+    with ThreadPoolExecutor(max_workers=3) as pool:
+        results.extend(pool.map(one, [(k, w) for k in ks for w in (False, True)]))
     if prop in STATE_PROPS:
         want, only = STATE_PROPS[prop]
         for wrapping in (False, True):
